@@ -153,11 +153,17 @@ fn pass_2_internal(segment: &Segment, common_context: &CommonContext) -> Result<
                 }
             }
             Item::Undef(alias) => {
-                if let None = common_context.defs.borrow_mut().remove(alias) {
+                if let None = common_context
+                    .defs
+                    .borrow_mut()
+                    .remove(&alias.to_lowercase())
+                {
                     bail!("Identifier {} isn't defined, {}", alias, line);
                 }
             }
             Item::Set(name, expr) => {
+                // like every other symbol, .set names do not depend on letter case
+                let name = &name.to_lowercase();
                 let value = expr.run(common_context)?;
                 if common_context.exist(name) {
                     let mut sets = common_context.sets.borrow_mut();
